@@ -49,6 +49,29 @@ pub fn graph_from_files<P: AsRef<Path>>(
 
     let vertices: Box<[Vertex]> = v_conf.try_into()?;
 
+    // edges and vertices are addressed by position, so the files must list them by id
+    if let Some((row, e)) = e_result
+        .edges
+        .iter()
+        .enumerate()
+        .find(|(row, e)| e.edge_id.0 != *row)
+    {
+        return Err(NetworkError::DatasetError(format!(
+            "edge list row {} has edge_id {}, expected edge ids to equal their row number",
+            row, e.edge_id
+        )));
+    }
+    if let Some((row, v)) = vertices
+        .iter()
+        .enumerate()
+        .find(|(row, v)| v.vertex_id.0 != *row)
+    {
+        return Err(NetworkError::DatasetError(format!(
+            "vertex list row {} has vertex_id {}, expected vertex ids to equal their row number",
+            row, v.vertex_id
+        )));
+    }
+
     let graph = Graph {
         adj: e_result.adj,
         rev: e_result.rev,
